@@ -216,3 +216,9 @@ for _p in ("C02", "C08", "C16"):
     CHECKS[_p].assumptions.append("contracts.unbounded (any extent): engine/generic.py's reading of numpy basic indexing, right-aligned broadcasting and "
                                   "in-order slice assignment; range(lo, hi) iterates in order; integration by parts for the derivative relation "
                                   "(tied to the closed-form specification by the per-shape contract up to extent 5)")
+for _p in ("C03", "C14"):
+    CHECKS[_p].harnesses.append("contracts.unbounded:OneElecVerticalAnyL")
+    CHECKS[_p].assumptions.append("contracts.unbounded (vertical recursion of the one-electron kernel, any l): engine/generic.py's reading of numpy basic "
+                                  "indexing / broadcasting / in-order slice assignment; the Obara-Saika vertical relation characterises the auxiliary "
+                                  "integrals (tied to the Boys-derivative specification by the per-shape contract up to l_a + l_b = 6); contraction, "
+                                  "horizontal recursion and component norms are covered per shape only")
